@@ -26,7 +26,7 @@ ID = "C17"
 LEVEL = "model_checking"
 ENGINE = "E2 parse-history enumeration in forked pristine images + E4 preemption-bounded thread schedules"
 RULE = (
-    "E2: every sequence of <= D parses over a 32-text corpus, each sequence in a process forked from a pristine parent, every "
+    "E2: every sequence of <= D parses over a 34-text corpus, each sequence in a process forked from a pristine parent, every "
     "parse compared with the fresh-interpreter baseline of its text. E4: ordered pairs of corpus texts x {pristine, warm process image} "
     "x both start orders x EVERY switch point (preemption bound 1; thorough adds opcode granularity and bound 2 at call "
     "granularity); distinct = distinct history or distinct (pair, configuration, schedule); non-trivial = history of >= 2 parses "
@@ -91,11 +91,14 @@ CORPUS = {
     "sp-skip": (mk(res=12, sync=SYNC, events=EV, tracks={"ExpertSingle": ["0 = S 2 3", "8 = S 2 3", "16 = S 2 3", "0 = N 0 0", "1 = N 1 0", "5 = N 2 0", "16 = N 0 0", "17 = N 1 0"]}), None),
     "sp-all": (mk(res=12, sync=SYNC, events=EV, tracks={"ExpertSingle": ["0 = S 2 3", "8 = S 2 3", "16 = S 2 3", "0 = N 0 0", "1 = N 1 0", "8 = N 2 0", "9 = N 3 0", "16 = N 0 0", "17 = N 1 0"]}), None),
     "sp-late": (mk(res=12, sync=SYNC, events=EV, tracks=[("ExpertSingle", ["0 = S 2 3", "8 = S 2 3", "16 = S 2 3", "5 = N 0 0", "17 = N 1 0"]), ("HardSingle", ["0 = S 2 0", "0 = S 2 2", "1 = N 1 0"])]), None),
+    # tempo maps of 12 events at different ticks (fast paths for long maps, tables built per map)
+    "long-a": (mk(res=12, sync=["0 = TS 4"] + ["%d = B %d" % (5 * i, 120000 + 1000 * i) for i in range(12)], events=EV, tracks={"ExpertSingle": ["%d = N %d %d" % (4 * i + 1, i % 5, 3) for i in range(16)]}), None),
+    "long-b": (mk(res=12, sync=["0 = TS 4"] + ["%d = B %d" % (3 * i * i, 90000 + 500 * i) for i in range(12)], events=EV, tracks={"ExpertSingle": ["%d = N %d %d" % (25 * i + 2, (i + 1) % 5, 7) for i in range(16)]}), None),
 }
 NAMES = list(CORPUS)
 BASELINE = {}
 
-PAIRS_QUICK = [("sus-a", "sus-b"), ("single", "fail-late"), ("sus-a", "retimed")]
+PAIRS_QUICK = [("sus-a", "sus-b"), ("single", "fail-late"), ("sus-a", "retimed"), ("long-a", "long-b")]
 PAIRS_THOROUGH = PAIRS_QUICK + [("fail-mid-track", "sus-a"), ("meta-a", "meta-b"), ("sus-a", "res-100"), ("sus-b", "sus-b"), ("fail-late", "sus-a"), ("selected", "crlf"), ("fail-sync", "single"), ("no-events", "sus-a"), ("res-100", "single")]
 
 
